@@ -181,8 +181,9 @@ impl File {
         self.0.read_line().map(|result| match result {
             Some(result) => {
                 if !result.is_empty() {
-                    let newline_bytes = if result.ends_with("\r\n") { 2 } else { 1 };
-                    result[..result.len() - newline_bytes].into()
+                    // The last line of a file might not end with a newline
+                    let line = result.strip_suffix('\n').unwrap_or(&result);
+                    line.strip_suffix('\r').unwrap_or(line).into()
                 } else {
                     KValue::Null
                 }
